@@ -18,6 +18,16 @@
     * `pSend`       — a non-forced push of a commit-valued ref succeeds iff the destination
                       is absent or an ancestor of the source (remote.c:set_ref_status_for_push).
   Fields `wr` and `log` of `State` are ghosts: no transition reads them.
+
+  Ref storage. A ref of git's files backend is a loose file `<gitdir>/<refname>`, an entry of
+  `<gitdir>/packed-refs`, or absent; `git gc` / `git pack-refs --all` (`Op.maintenance`) move
+  every loose ref into `packed-refs` without changing its value, and any later write of a NEW
+  value creates the loose file again (refs/files-backend.c; a write of the value the ref already
+  has is skipped). The value of a ref does not depend on where it is stored — but an
+  implementation of `ref_exists` might. So the sync step takes the existence probe as a
+  PARAMETER `P : Probe` (what the probe answers for an absent / loose / packed ref); which
+  probe the code uses is extracted from refs.rs (`ProbeImpl`, Extracted/SyncRefProbes.lean),
+  and what each kind of probe sees is the git-kernel fact `probeSem`.
 -/
 namespace GitAi.Sync
 
@@ -46,6 +56,73 @@ structure NRef where
   reach : List Nat
   map : NMap
   deriving Repr, DecidableEq, Inhabited
+
+/-- where a ref that exists is stored. -/
+inductive Store where
+  | loose | packed
+  deriving Repr, DecidableEq, Inhabited
+
+/-- what an existence probe is asked about. -/
+inductive RefSt where
+  | absent | loose | packed
+  deriving Repr, DecidableEq, Inhabited
+
+/-- an implementation of "does this ref exist": its answer per storage state. -/
+abbrev Probe := RefSt → Bool
+
+/-- how refs.rs:ref_exists asks (extracted from the source on every run). -/
+inductive ProbeImpl where
+  /-- `git show-ref --verify [--quiet] <ref>` succeeded -/
+  | showRefVerify
+  /-- `git rev-parse --verify [--quiet] <ref>` succeeded -/
+  | revParseVerify
+  /-- `<git dir>/<ref>` is a file (no git command) -/
+  | looseFile
+  /-- anything the extractor does not recognise -/
+  | unknown
+  deriving Repr, DecidableEq, Inhabited
+
+/-- git's ref lookup (refs.c:refs_resolve_ref_unsafe → files backend: loose file, else
+    packed-refs) finds loose and packed refs. -/
+def gitSees : Probe
+  | .absent => false
+  | _ => true
+
+/-- a file test under the git directory finds loose refs only. -/
+def looseOnly : Probe
+  | .loose => true
+  | _ => false
+
+/-- **git kernel fact**: what each kind of probe answers. `show-ref --verify` and
+    `rev-parse --verify` resolve the ref through git's ref store; a file test sees the loose
+    file only; an unrecognised probe is given no credit. -/
+def probeSem : ProbeImpl → Probe
+  | .showRefVerify => gitSees
+  | .revParseVerify => gitSees
+  | .looseFile => looseOnly
+  | .unknown => fun _ => false
+
+/-- the probe answers "exists" exactly for refs that exist, wherever they are stored. -/
+class Faithful (P : Probe) : Prop where
+  absent : P .absent = false
+  loose : P .loose = true
+  packed : P .packed = true
+
+instance : Faithful gitSees := ⟨rfl, rfl, rfl⟩
+
+/-- storage state of a ref with value `v` (`none` = no such ref) kept as `st`. -/
+def refSt (v : Option NRef) (st : Store) : RefSt :=
+  match v with
+  | none => .absent
+  | some _ => match st with
+    | .loose => .loose
+    | .packed => .packed
+
+/-- storage after git writes value `v` to a ref whose old value / storage were `old` / `st`:
+    files-backend skips the write when the ref already has the value ("The reference already
+    has the desired value, so we don't need to write it"), otherwise a loose file appears. -/
+def written (old : Option NRef) (st : Store) (v : NRef) : Store :=
+  if old = some v then st else .loose
 
 /-- notes-merge.c:merge_changes for one object, strategy `ours`
     (`b`,`l`,`r` = note of the object in base / local / remote tree, `none` = no note):
@@ -112,6 +189,10 @@ structure Clone where
   /-- push_authorship_notes: `exec_git(&fetch_before_push).is_ok()` (transient, between
       the steps of one push) -/
   fetchOk : Bool := false
+  /-- how refs/notes/ai is stored (meaningful when `loc` is `some`) -/
+  locSt : Store := .loose
+  /-- how refs/notes/ai-remote/origin is stored (meaningful when `trk` is `some`) -/
+  trkSt : Store := .loose
   deriving Repr, DecidableEq, Inhabited
 
 structure State where
@@ -128,9 +209,11 @@ structure State where
   wr : List (Nat × Oid × Note)
   /-- ghost: (commit, authoring clone, note written at commit time) -/
   log : List (Oid × Nat × Note)
+  /-- how the bare remote stores its refs/notes/ai (no client can observe it) -/
+  rst : Store := .loose
   deriving Repr, DecidableEq, Inhabited
 
-def init (n : Nat) : State := ⟨none, [], List.replicate n {}, 0, [], [], []⟩
+def init (n : Nat) : State := ⟨none, [], List.replicate n {}, 0, [], [], [], .loose⟩
 
 inductive Op where
   /-- clone `i` creates a commit on its branch through git-ai; post-commit writes the note -/
@@ -150,22 +233,43 @@ inductive Op where
   | pMerge (i : Nat)
   /-- push step 3: `git push origin refs/notes/ai:refs/notes/ai` (no force) -/
   | pSend (i : Nat)
+  /-- `git gc` / `git pack-refs --all` in clone `i`: every loose ref becomes a packed ref, no
+      value changes (gc's object pruning only drops unreachable objects older than two weeks) -/
+  | maintenance (i : Nat)
+  /-- the same on the bare remote -/
+  | maintRemote
   deriving Repr, DecidableEq, Inhabited
 
-/-- the shared tail of fetch_authorship_notes and of push step 1:
-    `if ref_exists(tracking) { if ref_exists(local) { merge } else { copy_ref } }`,
-    applied to clone `i` whose (already updated) record is `cl`. One id is consumed whether
-    or not a merge commit is created. -/
-def integrate (s : State) (i : Nat) (cl : Clone) : State :=
+/-- `merge_notes_from_ref`: `git notes --ref=ai merge -s ours <tracking>` in clone `i` whose
+    (already updated) record is `cl`. One id is consumed whether or not a merge commit is
+    created. An unborn local ref takes the other side's value (notes-merge.c: local is null →
+    "result == remote"); a missing tracking ref makes the command fail, the error is ignored. -/
+def doMerge (s : State) (i : Nat) (cl : Clone) : State :=
   match cl.trk with
   | none => { s with clones := s.clones.set i cl }
   | some t =>
     match cl.loc with
-    | none => { s with clones := s.clones.set i { cl with loc := some t } }
+    | none => { s with clones := s.clones.set i { cl with loc := some t, locSt := .loose } }
     | some l =>
       let m := notesMerge s.objs s.next l t
-      { s with clones := s.clones.set i { cl with loc := some m },
+      { s with clones := s.clones.set i { cl with loc := some m, locSt := written (some l) cl.locSt m },
                next := s.next + 1, objs := m :: s.objs }
+
+/-- `copy_ref`: `git update-ref refs/notes/ai <tracking>` — sets the local ref to the tracking
+    ref's value WHATEVER the local ref was (no old-value check is passed). -/
+def doCopy (s : State) (i : Nat) (cl : Clone) : State :=
+  match cl.trk with
+  | none => { s with clones := s.clones.set i cl }
+  | some t => { s with clones := s.clones.set i { cl with loc := some t, locSt := written cl.loc cl.locSt t } }
+
+/-- the shared tail of fetch_authorship_notes and of push step 1:
+    `if ref_exists(tracking) { if ref_exists(local) { merge } else { copy_ref } }`,
+    applied to clone `i` whose (already updated) record is `cl`; `P` is what `ref_exists`
+    answers for a ref in a given storage state. -/
+def integrate (P : Probe) (s : State) (i : Nat) (cl : Clone) : State :=
+  if P (refSt cl.trk cl.trkSt) then
+    if P (refSt cl.loc cl.locSt) then doMerge s i cl else doCopy s i cl
+  else { s with clones := s.clones.set i cl }
 
 def stepCommit (s : State) (i : Nat) : State :=
   match s.clones[i]? with
@@ -175,7 +279,7 @@ def stepCommit (s : State) (i : Nat) : State :=
     let v := s.next + 1
     let id := s.next + 2
     let nr := addNote cl.loc id c v
-    { s with clones := s.clones.set i { cl with loc := some nr, has := c :: cl.has, own := c :: cl.own },
+    { s with clones := s.clones.set i { cl with loc := some nr, locSt := .loose, has := c :: cl.has, own := c :: cl.own },
              next := s.next + 3, objs := nr :: s.objs,
              wr := (id, c, v) :: s.wr, log := (c, i, v) :: s.log }
 
@@ -186,20 +290,20 @@ def stepRewrite (s : State) (i : Nat) (c : Oid) : State :=
     let v := s.next
     let id := s.next + 1
     let nr := addNote cl.loc id c v
-    { s with clones := s.clones.set i { cl with loc := some nr },
+    { s with clones := s.clones.set i { cl with loc := some nr, locSt := .loose },
              next := s.next + 2, objs := nr :: s.objs, wr := (id, c, v) :: s.wr }
 
 /-- fetch_authorship_notes: `ls-remote origin refs/notes/ai` empty → NotFound (nothing
     touched); else forced fetch into the tracking ref, then merge or copy. The user's own
     `git fetch` brings every remote branch. -/
-def stepFetch (s : State) (i : Nat) : State :=
+def stepFetch (P : Probe) (s : State) (i : Nat) : State :=
   match s.clones[i]? with
   | none => s
   | some cl =>
     let cl := { cl with has := union cl.has s.rhas }
     match s.remote with
     | none => { s with clones := s.clones.set i cl }
-    | some r => integrate s i { cl with trk := some r }
+    | some r => integrate P s i { cl with trk := some r, trkSt := written cl.trk cl.trkSt r }
 
 /-- push step 1: the forced fetch fails when the remote has no notes ref. -/
 def stepPFetch (s : State) (i : Nat) : State :=
@@ -208,13 +312,13 @@ def stepPFetch (s : State) (i : Nat) : State :=
   | some cl =>
     match s.remote with
     | none => { s with clones := s.clones.set i { cl with fetchOk := false } }
-    | some r => { s with clones := s.clones.set i { cl with trk := some r, fetchOk := true } }
+    | some r => { s with clones := s.clones.set i { cl with trk := some r, trkSt := written cl.trk cl.trkSt r, fetchOk := true } }
 
-def stepPMerge (s : State) (i : Nat) : State :=
+def stepPMerge (P : Probe) (s : State) (i : Nat) : State :=
   match s.clones[i]? with
   | none => s
   | some cl =>
-    if cl.fetchOk then integrate s i { cl with fetchOk := false } else s
+    if cl.fetchOk then integrate P s i { cl with fetchOk := false } else s
 
 /-- push step 3 (plus the user's own branch push, which is independent of it). -/
 def stepPSend (s : State) (i : Nat) : State :=
@@ -226,27 +330,38 @@ def stepPSend (s : State) (i : Nat) : State :=
     | none => s                        -- "src refspec refs/notes/ai does not match any"
     | some l =>
       match s.remote with
-      | none => { s with remote := some l }
-      | some r => if subset r.reach l.reach then { s with remote := some l } else s   -- rejected
+      | none => { s with remote := some l, rst := .loose }
+      | some r => if subset r.reach l.reach then { s with remote := some l, rst := written (some r) s.rst l } else s   -- rejected
 
-def step (s : State) : Op → State
+/-- `git gc` / `git pack-refs --all` in clone `i`: both notes refs (when they exist) end up in
+    packed-refs, values untouched. -/
+def stepMaint (s : State) (i : Nat) : State :=
+  match s.clones[i]? with
+  | none => s
+  | some cl => { s with clones := s.clones.set i { cl with locSt := .packed, trkSt := .packed } }
+
+def stepMaintRemote (s : State) : State := { s with rst := .packed }
+
+def step (P : Probe) (s : State) : Op → State
   | .commit i => stepCommit s i
   | .rewrite i c => stepRewrite s i c
-  | .fetch i => stepFetch s i
-  | .pull i => stepFetch s i
-  | .push i => stepPSend (stepPMerge (stepPFetch s i) i) i
+  | .fetch i => stepFetch P s i
+  | .pull i => stepFetch P s i
+  | .push i => stepPSend (stepPMerge P (stepPFetch s i) i) i
   | .pFetch i => stepPFetch s i
-  | .pMerge i => stepPMerge s i
+  | .pMerge i => stepPMerge P s i
   | .pSend i => stepPSend s i
+  | .maintenance i => stepMaint s i
+  | .maintRemote => stepMaintRemote s
 
-def run : List Op → State → State
+def run (P : Probe) : List Op → State → State
   | [], s => s
-  | op :: ops, s => run ops (step s op)
+  | op :: ops, s => run P ops (step P s op)
 
 /-- states after every step (for the driver). -/
-def trace : List Op → State → List State
+def trace (P : Probe) : List Op → State → List State
   | [], _ => []
-  | op :: ops, s => let s' := step s op; s' :: trace ops s'
+  | op :: ops, s => let s' := step P s op; s' :: trace P ops s'
 
 def pushAll (n : Nat) : List Op := (List.range n).map Op.push
 def fetchAll (n : Nat) : List Op := (List.range n).map Op.fetch
@@ -259,5 +374,34 @@ def Op.isRewrite : Op → Bool
 def SingleWriter (σ : List Op) : Prop := ∀ op ∈ σ, op.isRewrite = false
 
 instance (σ : List Op) : Decidable (SingleWriter σ) := by unfold SingleWriter; infer_instance
+
+/-! ## extraction interface (rows of Extracted/SyncRefProbes.lean) -/
+
+/-- a helper of refs.rs that sync_authorship.rs calls: does its body run a git command
+    (`exec_git*`), does it touch the file system itself (`is_file`, `exists`, `std::fs`, a path
+    `join`, `packed-refs`, …). -/
+structure RefHelper where
+  name : List Char
+  git : Bool
+  fs : Bool
+  deriving Repr, DecidableEq
+
+/-- the ref-related statements of fetch_authorship_notes / push_authorship_notes after the fetch
+    into the tracking ref, in source order. -/
+inductive SyncStmt where
+  | probeTrk | probeLoc | merge | copy
+  deriving Repr, DecidableEq
+
+/-- `nested` = the statements have the shape
+    `if probeTrk { if probeLoc { merge } else { copy } }`. -/
+structure SyncDecision where
+  fn : List Char
+  stmts : List SyncStmt
+  nested : Bool
+  deriving Repr, DecidableEq
+
+/-- the shape `integrate` transcribes. -/
+def SyncDecision.ok (d : SyncDecision) : Bool :=
+  d.stmts == [.probeTrk, .probeLoc, .merge, .copy] && d.nested
 
 end GitAi.Sync
